@@ -277,7 +277,119 @@ class Sem:
     # ------------------------------------------------------------------ edge facts (A2)
     def edge_facts(self, be, bb):
         """for a switch block: {succ: [fact,...]}; facts:
-           ('cmp', op, a, b) | ('variant', x, name) | ('truth', x, bool)"""
+           ('cmp', op, a, b) | ('variant', x, name) | ('truth', x, bool)
+        plus, for a variant / truth fact on the result of a workspace helper, the facts that hold whenever the helper returns
+        that variant (Some / Ok / true), with the call's arguments substituted (helper_facts)"""
+        k = (id(be), bb)
+        memo = self.__dict__.setdefault("_ef_memo", {})
+        if k in memo:
+            return memo[k][1]
+        base = self._edge_facts(be, bb)
+        out = {}
+        for succ, fl in base.items():
+            ext = list(fl)
+            for f in fl:
+                for g in self.derived_facts(f):
+                    if g not in ext:
+                        ext.append(g)
+            out[succ] = ext
+        memo[k] = (be, out)
+        return out
+
+    def derived_facts(self, f, depth=0):
+        w = self.w
+        if depth > 2:
+            return []
+        want = None
+        if f[0] == "variant" and f[2] in ("Some", "Ok"):
+            want, x = f[2], w.ident(f[1], expand_ws=False)
+        elif f[0] == "truth" and f[2] is True:
+            want, x = "true", w.ident(f[1], expand_ws=False)
+        if want is None or x.op != "call":
+            return []
+        b = w.callee_body(x)
+        if b is None or not b.is_fn():
+            return []
+        out = []
+        for g in self.helper_facts(b, want):
+            out.append(tuple(w.subst_params(t, b, list(x.args)) if isinstance(t, E) else t for t in g))
+        return out
+
+    def value_facts(self, x, want, depth=0):
+        """facts implied by the Option / Result / bool expression x being Some / Ok / true (library combinators looked through)"""
+        w = self.w
+        x = w.ident(x, expand_ws=False)
+        if depth > 6 or x.op != "call":
+            return []
+        if w.callee_body(x) is not None:
+            f = ("variant", x, want) if want in ("Some", "Ok") else ("truth", x, True)
+            return [f] + self.derived_facts(f, 1)
+        nm = x.info
+        if nm == "std::option::Option::filter" and want == "Some" and len(x.args) == 2 and x.args[1].op == "closure":
+            out = self.value_facts(x.args[0], "Some", depth + 1)
+            pb = self.prog.bodies.get(x.args[1].info)
+            if pb is not None:
+                from .iters import true_facts
+                payload = w.ident(E("proj", (x.args[0],), "some"), expand_ws=False)
+                for g in true_facts(self, pb):
+                    out.append(tuple(w.subst_params(t, pb, [None, payload], upvars=list(x.args[1].args)) if isinstance(t, E) else t for t in g))
+            return out
+        if nm == "std::result::Result::ok" and want == "Some":
+            return [("variant", x.args[0], "Ok")] + self.value_facts(x.args[0], "Ok", depth + 1)
+        if nm in ("std::option::Option::ok_or", "std::option::Option::ok_or_else") and want == "Ok":
+            return [("variant", x.args[0], "Some")] + self.value_facts(x.args[0], "Some", depth + 1)
+        return []
+
+    def helper_facts(self, body, want):
+        """facts that hold on every path of workspace function `body` to a return of Some(..) / Ok(..) / true (in its own terms)"""
+        memo = self.__dict__.setdefault("_hf_memo", {})
+        k = (body.path, want)
+        if k in memo:
+            return memo[k]
+        memo[k] = []
+        w = self.w
+        be = w.be(body)
+        cfg = be.cfg
+        sites = []
+        for d in be.defs_by_local.get(0, []):
+            if d.path or d.bb not in cfg.live:
+                continue
+            v = w.ident(be.def_value(d), expand_ws=False)
+            for a in (v.args if v.op == "phi" else (v,)):
+                if want in ("Some", "Ok"):
+                    if a.op == "adt" and a.info[1] == want and a.info[0].split("::")[-1] in ("Option", "Result"):
+                        sites.append(d.bb)
+                    elif a.op not in ("adt",) and not (a.op == "call" and a.info.endswith("from_residual")):
+                        sites.append(None)   # an opaque result: nothing can be said
+                else:
+                    if not (a.op == "const" and a.info[0] == "scalar" and a.info[1] == 0):
+                        sites.append(d.bb)
+        if None in sites:
+            # the result is an expression (combinators): what its being Some / Ok / true implies
+            vals = []
+            for d in be.defs_by_local.get(0, []):
+                if not d.path and d.bb in cfg.live:
+                    vals.append(w.ident(be.def_value(d), expand_ws=False))
+            if len(vals) == 1 and vals[0].op != "phi":
+                memo[k] = self.value_facts(vals[0], want)
+                return memo[k]
+            return []
+        if not sites:
+            return []
+        common = None
+        for t in sites:
+            fs = []
+            for blk in body.blocks:
+                if blk.cleanup or blk.term.kind != "switch" or blk.idx not in cfg.live or len(cfg.succ[blk.idx]) < 2:
+                    continue
+                for succ, fl in self.edge_facts(be, blk.idx).items():
+                    if t not in cfg.reach([0], removed={(blk.idx, succ)}):
+                        fs.extend(fl)
+            common = fs if common is None else [g for g in common if g in fs]
+        memo[k] = common or []
+        return memo[k]
+
+    def _edge_facts(self, be, bb):
         blk = be.body.blocks[bb]
         t = blk.term
         if t.kind != "switch":
